@@ -159,3 +159,7 @@ def run(ctx):
     import json as _json2
     from .c18 import site_languages, SPEC as _SPEC
     site_languages(ctx, "R6", "facebook", _json2.load(open(_SPEC))["facebook"])
+    # a language label is stripped after normalize_url ran: the irrelevant labels must be matched behind it too
+    from .c04 import subdomain_labels, SPEC as _SPEC4
+    ctx.rule("R7", "irrelevant sub-domain labels are matched wherever they stand in the host (fr.www.lemonde.fr loses both labels): pinned label list x {leading, inner} positions, regex-language inclusion")
+    subdomain_labels(ctx, "R7", _json2.load(open(_SPEC4)))
